@@ -3,7 +3,7 @@ from __future__ import annotations
 
 import ast
 
-from rules import _cas
+from rules import _cas, _retry
 from sa.cfg import CFG, handler_names
 from sa.expr import cmp_atom, edges_implying, edges_where, resolve, single_defs
 from sa.loader import Program, dotted, norm, own_nodes
@@ -320,6 +320,8 @@ def run(ctx):
               message="system_attrs of the retry is not {'failed_trial': trial.number, 'retry_history': [], **trial.system_attrs} "
                       "(spread last, so the first failure's number and the accumulated history are kept)",
               how="dict display with the spread after the defaults")
+
+    _retry.retry_keeps_queue_entry(ctx, "R19.5")
 
     # ------------------------------------------------------------ R19.6 sweep before ask
     ctx.rule("R19.6", "optimize sweeps stale trials before every ask; Study.ask does not sweep")
